@@ -16,7 +16,7 @@ SPEC = common.SPEC / "fs"
 FLAGS = ["-O1", "-g", "-UNDEBUG", "-fsanitize=address,undefined", "-fno-sanitize=nonnull-attribute", "-fno-omit-frame-pointer"]
 ASSUMPTIONS = [
     "POSIX: text and binary modes are identical; write and append handles only ever add at the end (no seek in them), reads happen on read handles",
-    "contents are repetitions of two symbols per palette (0x00/0xFF, 0x0A/0x0D, 0x1A/0x61) with multiplicities 1, 4096 and (thorough) 2^20; arbitrary byte strings are not enumerated",
+    "contents are repetitions of two symbols per palette (0x00/0xFF, 0x0A/0x0D, 0x1A/0x61) with multiplicities 1, 4096 and (thorough) 2^20; arbitrary byte strings (uniform, special-byte-heavy, text-like; lengths up to 70000, 3 MiB in thorough) are sampled as seeded round trips",
     "one handle and one path at a time; the scratch directory is private to the execution",
 ]
 
@@ -121,9 +121,33 @@ def check(pid, tier, seed):
             k = int(prob.split()[1]) if prob.startswith("step ") and prob.split()[1].isdigit() else len(ops) - 1
             verdict.violation("file[pal=%d,mult=%d] %s" % (pal, mult, " ".join(prob.split()[2:8])), prob,
                               {"component": "file", "xid": xid, "palette": pal, "multiplicity": mult, "initial": {"kind": s0["kind"], "content": sy(s0["content"])}, "history": ops[:k + 1]})
-    log("[%s] graph %d states / %d edges, %d executions" % (pid, len(g.states), len(g.edges), len(meta)))
+    # arbitrary byte strings: seeded round trips (the statement itself is the oracle: what was written is what is read)
+    import random
+    rnd = random.Random("file-%s" % seed)
+    nrt = {"quick": 300, "thorough": 5000}[tier]
+    rlines, rcfg = [], {}
+    for i in range(nrt):
+        ln = rnd.choice([0, 1, 2, 255, 4095, 4096, 4097, 8192, 65536]) if rnd.random() < 0.5 else rnd.randrange(0, 70000)
+        if tier == "thorough" and i % 500 == 0:
+            ln = 3 * (1 << 20) + rnd.randrange(0, 5000)
+        cfg = "roundtrip=1 seed=%d len=%d flavour=%d append=%d text=%d dir=%s" % (rnd.randrange(1, 2 ** 31), ln, rnd.randrange(3), rnd.randrange(2), rnd.randrange(2), scratch)
+        rlines += ["X rt%d %s" % (i, cfg), "E"]
+        rcfg["rt%d" % i] = cfg
+    rres = common.run_harness(exe, "\n".join(rlines) + "\n")
+    for x, cfg in rcfg.items():
+        recs = rres.get(x, [])
+        r = next((q for q in recs if q.get("e") == "RoundTrip"), None)
+        crash = next((q for q in recs if q.get("e") == "Crash"), None)
+        prob = None
+        if r is None:
+            prob = "round trip did not finish: " + (" ".join(crash.get("stderr", "").split())[:260] if crash else "no result")
+        elif not r["ok"]:
+            prob = r["problem"]
+        if prob:
+            verdict.violation("file[roundtrip] %s" % " ".join(prob.split(":")[0].split()[:6]), prob, {"component": "file", "xid": x, "cfg": " ".join(t for t in cfg.split() if not t.startswith("dir="))})
+    log("[%s] graph %d states / %d edges, %d executions; %d random round trips" % (pid, len(g.states), len(g.edges), len(meta), nrt))
     some = list(meta)[:2]
-    cov = {"evaluations": len(meta), "distinct_nontrivial": len(seen),
+    cov = {"evaluations": len(meta) + nrt, "distinct_nontrivial": len(seen), "random_round_trips": nrt,
            "rule": "path cover of every edge of TLC's graph of FileP (all histories of <= MaxSteps operations from every initial disk state), each path executed with "
                    "2-5 (palette, multiplicity) variants; distinct_nontrivial = distinct (operation, result kind, palette, multiplicity) combinations observed",
            "samples": [{"palette": meta[x][1], "multiplicity": meta[x][2], "history": [step_line(g, ei)[2:] for ei in meta[x][0]]} for x in some],
